@@ -14,7 +14,7 @@ package aspect_elimination
 //@ spec aeImportance(l model.BiasListener, p *model.DecisionMakingParams, id string) real = p.MethodParameters.(AspectEliminationHeuristicParams).Weights[id]
 
 //@ func (*AspectEliminationHeuristicParams).with
-//@   property C07
+//@   property C07 C01 C12
 //@   nopanic
 //@   ensures [replaced] result.Params == params && result.Weights == *weights && result.Function == a.Function && result.RandomSeed == a.RandomSeed
 //@             && result.RandomAlternativesOrdering == a.RandomAlternativesOrdering
@@ -45,12 +45,12 @@ package aspect_elimination
 //@ spec thresholdOf(t model.Weights, id string) real = id in t ? t[id] : 0.0
 
 //@ func isBellowThreshold
-//@   property C12
+//@   property C12 C01
 //@   panics_iff [missing] !(criterion.Id in a.Criteria)
 //@   ensures [below] result <==> model.signed(*a, *criterion) < thresholdOf(*thresholds, criterion.Id) * model.mult(*criterion)
 
 //@ func makeWeightPair
-//@   property C12
+//@   property C12 C01
 //@   ensures [single_threshold] fresh(result) && criterion.Id in result && result[criterion.Id] == thresholdOf(*weights, criterion.Id) && forall q string :: q in result ==> q == criterion.Id
 
 //@ pred eliminatedAt(r model.AlternativeResult, alt model.AlternativeWithCriteria, level int, thresholds model.Weights) =
@@ -58,7 +58,7 @@ package aspect_elimination
 //@   && r.Evaluation.(AspectEliminationEvaluation).ThresholdsIndex == level && r.Evaluation.(AspectEliminationEvaluation).NotSatisfiedThreshold == thresholds
 
 //@ func updateResult
-//@   property C12
+//@   property C12 C01
 //@   requires 0 <= resultInsertIndex && resultInsertIndex < len(result) && resultInsertIndex < len(resultIds) && arr(result) != 0
 //@   assigns result, resultIds
 //@   ensures [slot_written] eliminatedAt(result[resultInsertIndex], alternative, alternativeValue, *thresholds) && resultIds[resultInsertIndex] == alternative.Id
